@@ -127,45 +127,39 @@ def runChunks (f : List String) : String :=
     | _, _, _ => "bad-op"
   | _ => "bad-op"
 
-/-- snd.<kind> batch nodes initial retries copy snapshot
-      batch    = ids joined by ','
-      nodes    = count
-      initial  = per node: 'E' (error) or failed ids joined by '+' ('-' none), nodes joined by ','
-      retries  = triples node:id:attempt that fail, joined by ',' ('-' none)
-      copy     = ids whose copy into failed-parts fails, joined by ',' ('-' none)
-      snapshot = ids in the liaison snapshot before the run -/
-def natList (s : String) (sep : String) : List Nat :=
-  if s == "-" || s.isEmpty then [] else (s.splitOn sep).filterMap String.toNat?
+/-- snd.<kind> nodes scripts quota seed series points nparts   (same line as the Go driver)
+      scripts = per node the outcome of its k-th call (S ok, E error, F every part reported failed; the last
+                letter repeats), nodes joined by ','
+      quota   = 1: the copy into failed-parts/ fails
+    The parts of the batch are numbered 1..nparts. -/
+def outcomeAt (script : String) (k : Nat) : Char :=
+  let cs := script.toList
+  if cs.isEmpty then 'S' else cs.getD (min k (cs.length - 1)) 'S'
 
 def runSnd (f : List String) : String :=
   match f with
-  | [batchS, nodesS, initS, retrS, copyS, snapS] =>
-    let batch := natList batchS ","
+  | [nodesS, scriptsS, quotaS, _, _, _, npartsS] =>
     let nn := nodesS.toNat?.getD 0
+    let nparts := npartsS.toNat?.getD 1
+    let batch := (List.range nparts).map (· + 1)
     let nodes := (List.range nn).map fun i => s!"n{i}"
-    let inits := initS.splitOn ","
+    let scripts := scriptsS.splitOn ","
+    let scriptOf (n : String) : String :=
+      match nodes.idxOf? n with
+      | none => "S"
+      | some i => let t := scripts.getD i "S"; if t == "-" || t.isEmpty then "S" else t
     let initial (n : String) : SyncAttempt :=
-      match nodes.idxOf? n with
-      | none => .done []
-      | some i =>
-        let t := inits.getD i "-"
-        if t == "E" then .err else .done (natList t "+")
-    let triples := if retrS == "-" then [] else (retrS.splitOn ",").map fun t => natList t ":"
-    let retryFails (n : String) (id attempt : Nat) : Bool :=
-      match nodes.idxOf? n with
-      | none => false
-      | some i => triples.contains [i, id, attempt]
-    let badCopy := natList copyS ","
-    let env : SyncEnv := ⟨nodes, initial, retryFails, fun id => !badCopy.contains id⟩
-    let l : Liaison := ⟨natList snapS ",", []⟩
-    let fates := batch.map fun id =>
-      match partFate env batch id with
-      | .delivered => s!"{id}:D" | .preserved => s!"{id}:P" | .lost => s!"{id}:L"
+      match outcomeAt (scriptOf n) 0 with
+      | 'E' => .err
+      | 'F' => .done batch
+      | _ => .done []
+    let retryFails (n : String) (_id attempt : Nat) : Bool := outcomeAt (scriptOf n) attempt != 'S'
+    let env : SyncEnv := ⟨nodes, initial, retryFails, fun _ => quotaS != "1"⟩
+    let l : Liaison := ⟨batch, []⟩
+    let delivered := !nodes.isEmpty && batch.all fun id => partFate env batch id == .delivered
     match syncSnapshot env l batch with
-    | none => "err"
-    | some l' =>
-      let sh (x : List Nat) := if x.isEmpty then "-" else ",".intercalate (x.map toString)
-      s!"snap={sh l'.snapshot} failed={sh l'.failedDir} fates={" ".intercalate fates}"
+    | none => s!"left={batch.length} failed=0 delivered={b01 false} ret=err"
+    | some l' => s!"left={l'.snapshot.length} failed={l'.failedDir.length} delivered={b01 delivered} ret=ok"
   | _ => "bad-op"
 
 def handle (line : String) : String :=
